@@ -209,6 +209,14 @@ def metamodel_pass(ctx):
         for pk in roots:
             res.append(pk)
         log = []
+        if rng.random() < .35:
+            # names are free text: 'org.example', 'Type.v2' (only '@feature.position' segments carry a position)
+            from pyecore import ecore as E
+            cands = [e for r in roots for e in r.eAllContents() if isinstance(e, (E.EPackage, E.EClassifier))]
+            for e in rng.sample(cands, min(len(cands), rng.randint(1, 2))):
+                e.name = f'{e.name}.v{rng.randint(1, 3)}'
+                log.append(f'dotted name {e.name}')
+                ctx.count('meta/dotted-name')
         for step in range(4):
             seen, problem = {}, None
             for r in res.contents:
